@@ -109,7 +109,7 @@ def labelDim : List Nat → List Nat → Nat → Option Nat
 
 /-- the labels summed over: those of the operands that are not output labels -/
 def summedLabels (la lb lo : List Nat) : List Nat :=
-  (dedup (la ++ lb)).filter (fun l => !lo.contains l)
+  dedup ((la ++ lb).filter (fun l => !lo.contains l))
 
 /-- For the output position `oix` (one index per output label): the pairs
 (index into the first operand, index into the second operand) whose products are summed.
@@ -125,21 +125,27 @@ def dimsAgree (dimOf : Nat → Nat) : List Nat → List Nat → Bool
   | [], [] => true
   | _, _ => false
 
+/-- size of label `l`: from the first operand if it carries the label, else from the second -/
+def dimOf (la shA lb shB : List Nat) (l : Nat) : Nat :=
+  match labelDim la shA l with
+  | some d => d
+  | none => (labelDim lb shB l).getD 1
+
+/-- what `np.einsum` checks: operand ranks = numbers of labels, one size per label, output labels
+occur in the operands and are pairwise distinct -/
+def einsumOk (la shA lb shB lo : List Nat) : Bool :=
+  dimsAgree (dimOf la shA lb shB) la shA && dimsAgree (dimOf la shA lb shB) lb shB &&
+  lo.all (fun l => (la ++ lb).contains l) && (dedup lo).length == lo.length
+
 /-- `np.einsum(A, la, B, lb, lo)`:
 `out[o] = Σ_{summed labels} A[la under the assignment] * B[lb under the assignment]`. -/
 def einsum (o : Ops α) (A : Tensor α) (la : List Nat) (B : Tensor α) (lb lo : List Nat) :
     Except Err (Tensor α) :=
-  let dimOf : Nat → Nat := fun l =>
-    match labelDim la A.shape l with
-    | some d => d
-    | none => (labelDim lb B.shape l).getD 1
-  if !(dimsAgree dimOf la A.shape && dimsAgree dimOf lb B.shape) then .error .einsum else
-  if !(lo.all fun l => (la ++ lb).contains l) then .error .einsum else
-  if (dedup lo).length ≠ lo.length then .error .einsum else
+  if !einsumOk la A.shape lb B.shape lo then .error .einsum else
   let sl := summedLabels la lb lo
-  let sdims := sl.map dimOf
-  .ok (Tensor.ofFn (lo.map dimOf) fun oix =>
-    sumL o ((einsumTerms la lb lo sl sdims oix).map fun ab => o.mul (A.get o ab.1) (B.get o ab.2)))
+  .ok (Tensor.ofFn (lo.map (dimOf la A.shape lb B.shape)) fun oix =>
+    sumL o ((einsumTerms la lb lo sl (sl.map (dimOf la A.shape lb B.shape)) oix).map fun ab =>
+      o.mul (A.get o ab.1) (B.get o ab.2)))
 
 /-- a step of a measurement-free circuit, already resolved to matrices -/
 inductive Op (α : Type) where
